@@ -144,6 +144,10 @@ def widen(old, new, ty_range=None):
         return join(old, new)
     k = old[0]
     if k == "i":
+        if len(old) > 3 and len(new) > 3 and len(old[3] | new[3]) <= SETMAX:
+            # small explicit value sets: the union is itself a widening (a set can grow at most SETMAX times)
+            u = old[3] | new[3]
+            return I(min(u), max(u), u)
         lo, hi = old[1], old[2]
         tl, th = ty_range if ty_range else (-BIG, BIG)
         if new[1] < lo:
@@ -158,14 +162,14 @@ def widen(old, new, ty_range=None):
         hi = old[2] if new[2] <= old[2] else math.inf
         return ("f", lo, hi, old[3] or new[3])
     if k == "r":
-        return ("r", widen(old[1], new[1]))
+        return ("r", widen(old[1], new[1], ty_range))
     if k == "s":
         da, db = dict(old[1]), dict(new[1])
         if set(da) != set(db):
             return TOP
         return ("s", tuple(sorted((n, widen(da[n], db[n])) for n in da)))
     if k == "v":
-        return ("v", widen(old[1], new[1], (0, MAXLEN)), widen(old[2], new[2]), None)
+        return ("v", widen(old[1], new[1], (0, MAXLEN)), widen(old[2], new[2], ty_range), None)
     return join(old, new)
 
 
